@@ -557,7 +557,7 @@ func TestPropSmallGraphs(t *testing.T) {
 // ---------------------------------------------------------------- generators: random
 
 func TestPropQuote(t *testing.T) {
-	vk.Rapid(t, subQuote, vk.N(40000, 300000), func(t *rapid.T) QuoteCase {
+	vk.Rapid(t, subQuote, vk.N(50000, 600000), func(t *rapid.T) QuoteCase {
 		if rapid.Bool().Draw(t, "bytes") {
 			return mkQuote(genByteString().Draw(t, "b"), true)
 		}
@@ -566,14 +566,14 @@ func TestPropQuote(t *testing.T) {
 }
 
 func TestPropRoundTrip(t *testing.T) {
-	vk.Rapid(t, subRound, vk.N(30000, 250000), func(t *rapid.T) RoundCase {
+	vk.Rapid(t, subRound, vk.N(40000, 500000), func(t *rapid.T) RoundCase {
 		g := &valueGen{t: t}
 		return RoundCase{g.value(rapid.IntRange(0, 6).Draw(t, "maxdepth"), false)}
 	})
 }
 
 func TestPropCyclic(t *testing.T) {
-	vk.Rapid(t, subCyclic, vk.N(4000, 30000), func(t *rapid.T) CycCase {
+	vk.Rapid(t, subCyclic, vk.N(6000, 60000), func(t *rapid.T) CycCase {
 		return genGraph(t)
 	})
 }
